@@ -235,13 +235,13 @@ func TestC05(t *testing.T) {
 	c.Assume("two-way = both an encoder and a decoder that the library's own dispatchers reach; match fields that DecodeMatchField does not map are outside (avoided by the generator, counted)",
 		"generator preconditions of DESIGN.md Appendix B")
 	regressC05(t, c)
-	rapid.Check(t, c05Prop(c))
+	checkRapid(t, c, c05Prop(c))
 }
 
 // FuzzC05: coverage-guided driver of the same property (thorough tier only).
 func FuzzC05(f *testing.F) {
 	c := ev.For("C05")
-	f.Fuzz(rapid.MakeFuzz(c05Prop(c)))
+	f.Fuzz(rapid.MakeFuzz(guardLib(c, c05Prop(c))))
 }
 
 func c05Prop(c *ev.Collector) func(rt *rapid.T) {
